@@ -149,6 +149,9 @@ impl<'a> WorkerState<'a> {
 
 	fn report_violation(&mut self, tape: Vec<u32>, f: Failure, do_shrink: bool) {
 		let prop = self.prop;
+		// a failure that is itself a hang (a stuck helper thread keeps spinning after each
+		// reproduction) is reported as found
+		let do_shrink = do_shrink && f.oracle != "returns-promptly";
 		let (tape, f) = if do_shrink {
 			let tier = self.tier;
 			let known: Vec<String> = self.known.iter().filter(|k| !k.fixed).map(|k| k.signature.clone()).collect();
